@@ -197,7 +197,7 @@ def corr_parser(ctx: Ctx, drv):
         def sec(v):
             return ",".join(str(int(t)) for t in v.reshape(-1).tolist())
         impl = (f"real={sec(torch.nonzero(torch.as_tensor(sp).reshape(-1) > 0).squeeze(1))} Z={sec(Z)} nHeavy={sec(nHeavy)} nHydro={sec(nHydro)} maskd={sec(maskd)} "
-                f"atom_molid={sec(atom_molid)} idxi={sec(idxi)} idxj={sec(idxj)} mask={sec(mask)} mask_l={sec(mask_l)} pair_molid={sec(pair_molid)}")
+                f"atom_molid={sec(atom_molid)} idxi={sec(idxi)} idxj={sec(idxj)} mask={sec(mask)} mask_l={sec(mask_l)} pair_molid={sec(pair_molid)} ni={sec(ni)} nj={sec(nj)}")
         ctx.corr_case("Parser.forward", {"species": sp.tolist(), "cutoff": cutoff, "pad_garbage": True}, ans[:300], impl[:300], ans == impl,
                       nontrivial=int(idxi.numel()) > 0, stratum=("finite_cutoff" if cutoff < 1e9 else "default_cutoff"))
 
